@@ -113,7 +113,7 @@ func svMDTok(md metadata.MD) int64 {
 	return tok
 }
 
-var svNames = map[string]int64{"": 0, "dst": 1, "src": 2, "elsewhere": 3, "src2": 4, "c-1": 5, "c-11": 6, "c-111": 7, "c-": 8, svLongName: 9}
+var svNames = map[string]int64{"": 0, "dst": 1, "src": 2, "elsewhere": 3, "src2": 4, "c-1": 5, "c-11": 6, "c-111": 7, "c-": 8, svLongName: 9, " ": 10, "DST": 11, "Dst": 12, "dstx": 13, "ds": 14, "d": 15, "dst ": 16, " dst": 17, "dst\x00": 18, "dst/": 19, "*": 20}
 
 // a long, non-ASCII peer name
 var svLongName = strings.Repeat("пир-\u00e9\u4e16\u754c/", 40)
